@@ -549,3 +549,46 @@ func Ifs(fn *ssa.Function) []*ssa.If {
 	}
 	return out
 }
+
+// ParamOf resolves v to a function parameter, looking through the local cell
+// go/ssa introduces when a parameter is captured by a closure or has its
+// address taken (the cell must have exactly one store, of the parameter).
+func ParamOf(v ssa.Value) *ssa.Parameter {
+	if p, ok := v.(*ssa.Parameter); ok {
+		return p
+	}
+	u, ok := v.(*ssa.UnOp)
+	if !ok || u.Op != token.MUL {
+		return nil
+	}
+	al, ok := u.X.(*ssa.Alloc)
+	if !ok {
+		return nil
+	}
+	var p *ssa.Parameter
+	n := 0
+	var visit func(addr ssa.Value)
+	visit = func(addr ssa.Value) {
+		for _, ref := range *addr.Referrers() {
+			switch x := ref.(type) {
+			case *ssa.Store:
+				if x.Addr == addr {
+					n++
+					p, _ = x.Val.(*ssa.Parameter)
+				}
+			case *ssa.MakeClosure:
+				fn := x.Fn.(*ssa.Function)
+				for i, b := range x.Bindings {
+					if b == addr && i < len(fn.FreeVars) {
+						visit(fn.FreeVars[i])
+					}
+				}
+			}
+		}
+	}
+	visit(al)
+	if n == 1 {
+		return p
+	}
+	return nil
+}
